@@ -170,10 +170,10 @@ def runMsgs (async : Bool) (buf : Nat) : Nat → W → X (List (Err × Asm) × W
       pure ((r.2.1, r.2.2) :: t.1, t.2)
 
 /-- The scripted segmentation: segments of the given lengths, what is left after the last cut is one more segment;
-empty segments are never queued. -/
+a cut of 0 queues an empty segment (a transport read that completes with no bytes and no error). -/
 def segments : List Nat → List UInt8 → List (List UInt8)
   | [], bs => if bs.isEmpty then [] else [bs]
-  | n :: r, bs => if n = 0 ∨ bs.isEmpty then segments r bs else bs.take n :: segments r (bs.drop n)
+  | n :: r, bs => if n = 0 then [] :: segments r bs else if bs.isEmpty then segments r bs else bs.take n :: segments r (bs.drop n)
 
 /-! ## What the harness prints for a `read` operation -/
 
